@@ -181,6 +181,12 @@ func (p *Program) Callees(c ssa.CallInstruction) (fns []*ssa.Function, dynamic b
 // Reach computes the set of module functions reachable from the roots through
 // Callees (plus anonymous functions created inside reached functions).
 func (p *Program) Reach(roots ...*ssa.Function) map[*ssa.Function]bool {
+	for i, r := range roots {
+		if o := p.Orig(r); o != r { // an inlined view: the call graph knows the original
+			roots = append([]*ssa.Function(nil), roots...)
+			roots[i] = o
+		}
+	}
 	seen := map[*ssa.Function]bool{}
 	var work []*ssa.Function
 	push := func(f *ssa.Function) {
@@ -255,6 +261,7 @@ func (p *Program) CallReaches(c ssa.CallInstruction, pred func(ssa.CallInstructi
 
 // FuncReaches: some call satisfying pred is reachable from f.
 func (p *Program) FuncReaches(f *ssa.Function, pred func(ssa.CallInstruction) bool, memo map[*ssa.Function]bool) bool {
+	f = p.Orig(f)
 	if f == nil || len(f.Blocks) == 0 || !IsModuleFunc(f) {
 		return false
 	}
@@ -289,6 +296,7 @@ func sortedFuncs(m map[*ssa.Function]bool) []*ssa.Function {
 // (closure, method value) to a static callee — the dynamic calls through the
 // corresponding parameter inside that callee.
 func (p *Program) CallSitesOf(fn *ssa.Function) []ssa.CallInstruction {
+	fn = p.Orig(fn)
 	if p.callSites == nil {
 		p.callSites = map[*ssa.Function][]ssa.CallInstruction{}
 		add := func(f *ssa.Function, c ssa.CallInstruction) {
